@@ -1,0 +1,46 @@
+//go:build verif
+
+package codec
+
+// Machine-checked contracts for the spawn-configuration codec (property C37).
+// Comment-only file: it adds no code to the package. Read by /verif/govc.
+
+//@ property C37
+
+// ---- closed enums: decode(encode(x)) == x for every value ---------------------
+//@ lemma directive-roundtrip: forall d supervisor.Directive :: d >= 0 && d <= 3 ==> decodeSupervisorDirective(encodeSupervisorDirective(d)) == d
+//@ lemma strategy-roundtrip: forall s supervisor.Strategy :: s >= 0 && s <= 1 ==> decodeSupervisorStrategy(encodeSupervisorStrategy(s)) == s
+//@ lemma reentrancy-mode-roundtrip: forall m reentrancy.Mode :: m >= 0 && m <= 2 ==> fromInternalReentrancyMode(toInternalReentrancyMode(m)) == m
+//@ lemma directive-encoding-injective: forall a supervisor.Directive, b supervisor.Directive :: a >= 0 && a <= 3 && b >= 0 && b <= 3 && encodeSupervisorDirective(a) == encodeSupervisorDirective(b) ==> a == b
+
+// ---- supervisor ------------------------------------------------------------------
+//@ ghost var sup_strategy supervisor.Strategy
+//@ ghost var sup_retries uint32
+//@ ghost var sup_any supervisor.Directive
+//@ ghost var sup_has_any bool
+
+//@ func EncodeSupervisor(sup)
+//@   at call 1 of (*Supervisor).Strategy ghost sup_strategy = result
+//@   at call 1 of (*Supervisor).MaxRetries ghost sup_retries = result
+//@   at call 1 of (*Supervisor).AnyErrorDirective ghost sup_any = result0
+//@   at call 1 of (*Supervisor).AnyErrorDirective ghost sup_has_any = result1
+//@   ensures nil-stays-nil: sup == nil ==> result == nil
+//@   ensures carries-strategy-and-retries: sup != nil ==> result != nil && result.Strategy == encodeSupervisorStrategy(sup_strategy) && result.MaxRetries == sup_retries
+//@   ensures carries-any-error-directive: sup != nil && sup_has_any ==> result.AnyErrorDirective != nil && *result.AnyErrorDirective == encodeSupervisorDirective(sup_any)
+//@   ensures no-phantom-any-error-directive: sup != nil && !sup_has_any ==> result.AnyErrorDirective == nil
+
+// an encoder cannot carry what it never reads
+//@ structural mustcall EncodeSupervisor#core: (*Supervisor).Strategy, (*Supervisor).MaxRetries, (*Supervisor).Timeout, (*Supervisor).AnyErrorDirective, (*Supervisor).Rules
+//@ structural mustcall EncodeSupervisor#backoff: (*Supervisor).InitialDelay, (*Supervisor).MaxDelay, (*Supervisor).BackoffResetAfter
+
+// ---- reentrancy ------------------------------------------------------------------
+//@ ghost var re_mode reentrancy.Mode
+//@ ghost var re_max int
+
+//@ func EncodeReentrancy(re)
+//@   at call 1 of (*Reentrancy).Mode ghost re_mode = result
+//@   at call 1 of (*Reentrancy).MaxInFlight ghost re_max = result
+//@   ensures nil-stays-nil: re == nil ==> result == nil
+//@   ensures carries-mode: re != nil ==> result != nil && result.Mode == toInternalReentrancyMode(re_mode)
+//@   ensures carries-limit: re != nil && re_max >= 0 && re_max <= 4294967295 ==> int(result.MaxInFlight) == re_max
+//@   ensures negative-limit-is-zero: re != nil && re_max < 0 ==> result.MaxInFlight == 0
